@@ -639,4 +639,35 @@ theorem exists_woken_unblocked {cfg : Cfg} {s : State} (hA : InvA cfg s) (hW : I
         have huw : (s.task u).ctl = .waiting k := (hW.wait_iff k u).mp ⟨true, hmem⟩
         exact ⟨u, hlt u (by simp [huw]), hW.entry_woken k u (by simp) hmem, by simp [huw], hnb u⟩
 
+/-- rounds that poll only the tasks that are woken at the start of the round finish every task:
+    a waker-respecting executor needs no more than `measure` rounds -/
+theorem finishW_allFin {cfg : Cfg} (fuel : Nat) {s : State} (hA : InvA cfg s) (hW : InvW none s)
+    (hfuel : measure cfg s ≤ fuel) : allFin cfg (finishW cfg fuel s) = true := by
+  induction fuel generalizing s with
+  | zero =>
+    by_cases hfin : allFin cfg s = true
+    · exact hfin
+    · exfalso
+      obtain ⟨t, ht, hf, hnb⟩ := exists_unblocked hA (by simpa using hfin)
+      have := measure_poll_lt cfg t s ht hf hnb
+      omega
+  | succ f ih =>
+    unfold finishW
+    by_cases hfin : allFin cfg s = true
+    · simp [hfin]
+    · simp only [hfin]
+      obtain ⟨t, ht, hw, hf, hnb⟩ := exists_woken_unblocked hA hW (by simpa using hfin)
+      have hmem : t ∈ runnable cfg s := by
+        simp only [runnable, List.mem_filter, List.mem_range, Bool.and_eq_true, Bool.not_eq_true',
+          isFin, beq_eq_false_iff_ne]
+        exact ⟨ht, hw, hf⟩
+      have hne : (runnable cfg s).isEmpty = false := by
+        cases hr : runnable cfg s with
+        | nil => rw [hr] at hmem; cases hmem
+        | cons a l => rfl
+      simp only [hne]
+      have hdec := exec_decreases (runnable cfg s) hA t ht hf hnb hmem
+      apply ih (invA_exec cfg _ hA) (invW_exec cfg _ hW)
+      omega
+
 end MdModel.Once
